@@ -18,7 +18,7 @@ def main():
     ms = []
     for d in sorted(glob.glob(os.path.join(mutants.VERIF, "refactorings", "*", "patch.diff"))):
         name = os.path.basename(os.path.dirname(d))
-        m = re.match(r"r3n-\w-(C\d\d)-n\d(?:-vs-(.*))?$", name)
+        m = re.match(r"r\d\w*-\w-(C\d\d)-n\d(?:-vs-(.*))?$", name)
         props = [m.group(1)] if not m.group(2) else m.group(2).split("-")
         ms.append({"id": name, "property": props[0], "properties": props, "patch": os.path.relpath(d, mutants.VERIF), "expect": "pass"})
     out = {}
